@@ -2,6 +2,7 @@
 package lexer
 
 import (
+	"bytes"
 	"errors"
 	"fmt"
 	"io"
@@ -62,7 +63,16 @@ type Lexer struct {
 // New creates a new lexical analyzer for the EBNF language.
 // EBNF (Extended Backus-Naur Form) is used to define context-free grammars and their corresponding languages.
 func New(filename string, src io.Reader) (*Lexer, error) {
-	in, err := input.New(filename, src, bufferSize)
+	// The two-buffer reader latches the end of input as soon as it has handed out the last byte,
+	// and it does not undo that when the byte is retracted, so a token consisting of the very last
+	// character of the input would be lost. It also takes a short read for the end of input.
+	// Reading the source completely and terminating it with a newline avoids both.
+	content, err := io.ReadAll(src)
+	if err != nil {
+		return nil, err
+	}
+
+	in, err := input.New(filename, bytes.NewReader(append(content, '\n')), bufferSize)
 	if err != nil {
 		return nil, err
 	}
